@@ -1,13 +1,156 @@
 (* C08 -- tzstr, tzrange and tzlocal implement POSIX TZ rule semantics.
-   Statements only; proofs are in posix/PosixThm.v. *)
+   Statements only; proofs are in posix/*Thm.v over the hand models
+   posix/TzParseModel.v (_tzparser.parse), posix/TzRangeModel.v (tzstr, tzrange, tzrangebase),
+   posix/RDelta.v (relativedelta piece), posix/TzLocalModel.v (tzlocal over an abstract C library)
+   and the specification posix/PosixSpec.v. *)
 From Coq Require Import ZArith List Bool.
 From V Require Import base.Cal posix.PTime posix.RDelta posix.TzParseModel posix.TzRangeModel
-     posix.PosixSpec posix.PosixThm.
+     posix.PosixSpec posix.TzLocalModel posix.TransThm posix.MainThm posix.PosixThm
+     posix.ParseThm posix.ParseFull posix.RejectThm posix.LocalThm posix.WallThm.
 Import ListNotations.
 Open Scope Z_scope.
 
+(* MAIN.  guard r = wf_posix r && guard_apart r && guard_d8 r  (PosixSpec.v):
+   wf: alphabetic names, |offsets| < 24 h in whole minutes, Jn 1..365, n 0..365, Mm.w.d ranges,
+       rule times 0 .. 167:59:59;
+   guard_apart: "start and end at least a month apart and away from the year boundary" (28 days,
+       two days + |offsets| from either end of the year, 0 < saving <= 24 h);
+   guard_d8: an M-rule's time of day expressed in standard time lies in [0, 86400)  -- outside it
+       the statement is FALSE of dateutil (C08_tzstr_posix_d8_refuted, finding F-C08-1).
+   For every such rule and EVERY instant u the zone tzstr builds from the parsed rule reports the
+   offset, dst saving and abbreviation POSIX prescribes, on the wall reading u + offset. *)
+Theorem C08_tzstr_posix : forall r po u,
+  guard r = true -> (po = true \/ not_gmt_utc r.(p_name) = true) ->
+  exists z f, tzstr_of_res (Ok (Some (ast_of_posix r))) po = Ok z /\
+    observe_utc z u = Ok (let '(o, d, n) := posix_observe r u in mkObs (u + o) f o d (Some n)).
+Proof. exact tzstr_posix_lemma. Qed.
+Print Assumptions C08_tzstr_posix.
+
+(* MAIN (wall readings): wall_instant r w f (PosixSpec.v) is the instant a wall reading with a fold
+   flag denotes by PEP 495: the only candidate of a normal reading; of the two candidates of an
+   ambiguous reading the earlier one for fold=0 and the later one for fold=1; None for an
+   imaginary reading (gap).  Every reading that denotes an instant observes, through tzstr, what
+   POSIX prescribes at that instant -- for all wall readings, both folds, same guard. *)
+Theorem C08_tzstr_wall_posix : forall r po w f u,
+  guard r = true -> (po = true \/ not_gmt_utc r.(p_name) = true) ->
+  r.(p_dst) <> None ->
+  wall_instant r w f = Some u ->
+  exists z, tzstr_of_res (Ok (Some (ast_of_posix r))) po = Ok z /\
+    observe_wall z w f = Ok (let '(o, d, n) := posix_observe r u in (o, d, Some n)).
+Proof. exact tzstr_wall_posix_lemma. Qed.
+Print Assumptions C08_tzstr_wall_posix.
+
+(* the same for ANY zone object (tzstr or tzrange) whose attributes and yearly transitions are
+   the rule's: hemisphere-free, all instants *)
+Theorem C08_rule_zone_posix : forall r ds,
+  r.(p_dst) = Some ds -> wf_posix r = true -> guard_apart r = true ->
+  forall z u, zone_for r ds z ->
+  exists f, observe_utc z u =
+    Ok (let '(o, d, n) := posix_observe r u in mkObs (u + o) f o d (Some n)).
+Proof. exact observe_utc_posix. Qed.
+Print Assumptions C08_rule_zone_posix.
+
+(* tzrange built from the equivalent offsets and relativedelta keyword rules is the very same
+   zone object as tzstr's (hence observes the same, by C08_tzstr_posix) *)
+Theorem C08_tzrange_equiv_tzstr : forall r po,
+  wf_posix r = true -> (po = true \/ not_gmt_utc r.(p_name) = true) ->
+  forall z, tzstr_of_res (Ok (Some (ast_of_posix r))) po = Ok z -> z.(z_hasdst) = true ->
+  tzrange_of r = Ok z.
+Proof. exact tzrange_equiv_tzstr_lemma. Qed.
+Print Assumptions C08_tzrange_equiv_tzstr.
+
+(* D8, rediscovered: outside guard_d8 the faithful model contradicts POSIX *)
+Theorem C08_tzstr_posix_d8_refuted :
+  exists r u z o,
+    wf_posix r = true /\ guard_apart r = true /\ guard_d8 r = false /\
+    tzstr_init (render_posix r) false = Ok z /\ observe_utc z u = Ok o /\
+    o.(o_off) <> fst (fst (posix_observe r u)).
+Proof. exact tzstr_posix_d8_refuted_lemma. Qed.
+Print Assumptions C08_tzstr_posix_d8_refuted.
+
+(* a specification without a daylight part is a fixed-offset zone *)
 Theorem C08_no_dst_fixed : forall z u,
   z.(z_hasdst) = false ->
   observe_utc z u = Ok (mkObs (u + z.(z_std_off)) false z.(z_std_off) 0 z.(z_std_abbr)).
 Proof. exact no_dst_fixed_lemma. Qed.
 Print Assumptions C08_no_dst_fixed.
+
+(* 'GMT+h' / 'UTC+h' are h hours AHEAD of UTC, behind with posix_offset=True (0 <= h < 100:
+   every hour the two-digit grammar can write; finite reflection over the stated bound) *)
+Theorem C08_gmt_plus_h_reading : forall h, 0 <= h < 100 -> gmt_check h = true.
+Proof. exact gmt_plus_h_lemma. Qed.
+Print Assumptions C08_gmt_plus_h_reading.
+
+
+(* negative saving (daylight offset below the standard offset, e.g. the Irish rule), which
+   guard_apart excludes: the faithful model contradicts POSIX, and UTC -> local -> UTC does not
+   round-trip (finding F-C08-3) *)
+Theorem C08_tzstr_posix_negative_dst_refuted :
+  exists r u z o,
+    wf_posix r = true /\ guard_d8 r = true /\ guard_apart r = false /\
+    tzstr_init (render_posix r) false = Ok z /\ observe_utc z u = Ok o /\
+    o.(o_off) <> fst (fst (posix_observe r u)) /\ o.(o_wall) - o.(o_off) <> u.
+Proof. exact tzstr_posix_negative_dst_refuted_lemma. Qed.
+Print Assumptions C08_tzstr_posix_negative_dst_refuted.
+
+(* parser round trip, full strength: for EVERY well-formed rule the string render_posix r
+   (canonical form: explicit signs, h:mm offsets, /h:mm:ss times, explicit dst offset and rules)
+   is tokenised and parsed by the _tzparser model into exactly the rule's AST *)
+Theorem C08_tzparse_render : forall r,
+  wf_posix r = true -> tzparse (render_posix r) = Ok (Some (ast_of_posix r)).
+Proof. exact tzparse_render. Qed.
+Print Assumptions C08_tzparse_render.
+
+(* MAIN on the STRING: tz.tzstr(render_posix r) at every instant *)
+Theorem C08_tzstr_string_posix : forall r po u,
+  guard r = true -> (po = true \/ not_gmt_utc r.(p_name) = true) ->
+  exists z f, tzstr_init (render_posix r) po = Ok z /\
+    observe_utc z u = Ok (let '(o, d, n) := posix_observe r u in mkObs (u + o) f o d (Some n)).
+Proof. exact tzstr_string_posix_lemma. Qed.
+Print Assumptions C08_tzstr_string_posix.
+
+(* malformed strings are rejected with ValueError: the mechanism, for ALL strings *)
+Theorem C08_tzstr_rejects_unparsed : forall s po,
+  tzparse s = Ok None \/ (exists p, tzparse s = Ok (Some p) /\ p.(r_unused) = true) ->
+  tzstr_init s po = Err EValue.
+Proof. exact tzstr_rejects_unparsed_lemma. Qed.
+Print Assumptions C08_tzstr_rejects_unparsed.
+
+(* ... and the malformed classes of the property (missing end rule, surplus rule, surplus /time,
+   unknown characters, '/' without time, surplus and missing M field; RejectThm.v) on the finite
+   family rej_family (864 rules) by computation.  FULL STATEMENT (not proved in full): the same for
+   every well-formed rule. *)
+Theorem C08_tzparse_rejects_partial :
+  forall r, In r rej_family -> forall s, In s (malformed_variants r) ->
+  tzstr_init s false = Err EValue /\ tzstr_init s true = Err EValue.
+Proof. exact tzparse_rejects_partial_lemma. Qed.
+Print Assumptions C08_tzparse_rejects_partial.
+
+(* tzlocal: for ANY C library isdst function, any offsets with altzone <> timezone, and every UTC
+   instant, tzlocal reports the C library's answer (offset, dst, abbreviation) on the wall reading
+   u + offset ... *)
+Theorem C08_tzlocal_faithful_to_libc : forall libc std alt sn dn, alt <> std -> forall u,
+  exists f, l_observe_utc libc std alt true sn dn u =
+    (u + (if libc u then alt else std), f, if libc u then alt else std,
+     if libc u then alt - std else 0, if libc u then dn else sn).
+Proof. exact tzlocal_faithful_utc. Qed.
+Print Assumptions C08_tzlocal_faithful_to_libc.
+
+(* ... hence what POSIX prescribes when the C library implements the rule (the C library itself
+   is trusted, not verified: this is the partial part), at every instant, for every rule -- no
+   guard: tzlocal has neither the D8 nor the negative-saving defect *)
+Theorem C08_tzlocal_posix_partial : forall r u,
+  (forall ds, r.(p_dst) = Some ds -> ds.(d_off) <> r.(p_off)) ->
+  exists f, tzlocal_observe_utc r u =
+    (let '(o, d, n) := posix_observe r u in (u + o, f, o, d, n)).
+Proof. exact tzlocal_posix_utc_lemma. Qed.
+Print Assumptions C08_tzlocal_posix_partial.
+
+(* wall readings through tzlocal: a reading that denotes an instant (normal, or ambiguous with
+   its fold: fold=0 the earlier, fold=1 the later instant) observes what POSIX prescribes there *)
+Theorem C08_tzlocal_wall_partial : forall r ds w f u,
+  r.(p_dst) = Some ds -> r.(p_off) < ds.(d_off) ->
+  wall_instant r w f = Some u ->
+  tzlocal_observe_wall r w f = posix_observe r u.
+Proof. exact tzlocal_posix_wall_lemma. Qed.
+Print Assumptions C08_tzlocal_wall_partial.
